@@ -115,7 +115,7 @@ Section Machine.
 
   Lemma call_outcome w f args :
     snd (step w (Call f args))
-    = OCall (result_of f (window f (w_err w)) (map (arg_value w) args)).
+    = OCall (result_of f (w_err w) (map (arg_value w) args)).
   Proof.
     reflexivity.
   Qed.
@@ -173,7 +173,7 @@ Section Machine.
   Lemma repeat_same_outcome_l w f args mid :
     Forall is_call mid ->
     exists o omid,
-      o = OCall (result_of f (window f (w_err w)) (map (arg_value w) args))
+      o = OCall (result_of f (w_err w) (map (arg_value w) args))
       /\ snd (run w (Call f args :: mid ++ [Call f args])) = o :: omid ++ [o].
   Proof.
     intros Hm. eexists; eexists; split; [reflexivity|].
